@@ -489,6 +489,12 @@ class Parser:
                     raise ParseError(msg)
             if self.__expected_brackets:
                 self.__set_expected(self.__expected_brackets[-1][0])
+            elif self.__cstate is not None and self.__expected is None:
+                # a command was started but neither ended nor given a block
+                if self.__curcommand.accept_children:
+                    self.__set_expected("left_cbracket")
+                else:
+                    self.__set_expected("semicolon")
             if self.__expected is not None:
                 raise ParseError(
                     "end of script reached while %s expected"
